@@ -489,6 +489,157 @@ func (g *gen) adoptrace(i int, seed uint64) *scenario {
 	return sc
 }
 
+// malformed: near-valid hook responses with one field replaced by every JSON type
+var jsonTypes = []string{"null", "true", "7", "-3", "2.5", "\"str\"", "[]", "[1]", "{}", "{\"a\":1}", "123456789012345678901234567890", "1e400"}
+
+func (g *gen) malformed(i int, seed uint64) *scenario {
+	r := g.r
+	sc := g.basic("malformed", i, seed)
+	sc.Warmup = r.Bool()
+	sc.Setup = nil
+	sc.Features = nil
+	child := func(name string) string {
+		k := sc.Ctl.Kids[0]
+		ns := ""
+		if k.Namespaced && !sc.Ctl.ParentNamespaced {
+			ns = `,"namespace":"ns2"`
+		}
+		return fmt.Sprintf(`{"apiVersion":%q,"kind":%q,"metadata":{"name":%q,"labels":{"app":%q}%s},"spec":{"x":1}}`,
+			k.APIVersion, k.Kind, name, sc.Parent["spec"].(J)["selector"].(J)["matchLabels"].(J)["app"], ns)
+	}
+	if _, ok := sc.Parent["spec"].(J)["selector"].(J)["matchLabels"]; !ok {
+		sc.Parent["spec"].(J)["selector"] = J{"matchLabels": J{"app": "app0"}}
+	}
+	fields := map[string]string{
+		"status":             `{"ready":1}`,
+		"children":           "[" + child("c0") + "," + child("c1") + "]",
+		"resyncAfterSeconds": "0",
+		"finalized":          "false",
+	}
+	t := jsonTypes[r.Intn(len(jsonTypes))]
+	what := ""
+	switch r.Intn(9) {
+	case 0:
+		fields["status"] = t
+		what = "status"
+	case 1:
+		fields["children"] = t
+		what = "children"
+	case 2:
+		fields["resyncAfterSeconds"] = t
+		what = "resync"
+	case 3:
+		fields["finalized"] = t
+		what = "finalized"
+	case 4: // one child entry replaced
+		fields["children"] = "[" + child("c0") + "," + t + "]"
+		what = "child-entry"
+	case 5: // a field inside a child replaced
+		c := child("c0")
+		sub := []string{`"kind":`, `"apiVersion":`, `"metadata":`, `"name":`, `"labels":`, `"app":`}[r.Intn(6)]
+		idx := indexOf(c, sub)
+		if idx >= 0 {
+			// replace the value that follows sub by t
+			end := valueEnd(c, idx+len(sub))
+			c = c[:idx+len(sub)] + t + c[end:]
+		}
+		fields["children"] = "[" + c + "]"
+		what = "child-field-" + sub
+	case 6: // whole body replaced
+		sc.Hook.Kind, sc.Hook.RawBody = "raw", t
+		what = "body"
+	case 7: // unknown / duplicate fields
+		if t == "1e400" {
+			t = "7" // the harness cannot carry an out-of-range number inside an ignored field
+		}
+		fields["bogus"] = t
+		what = "unknown-field"
+	case 8: // missing fields
+		delete(fields, []string{"status", "children", "resyncAfterSeconds", "finalized"}[r.Intn(4)])
+		what = "missing-field"
+	}
+	if sc.Hook.Kind != "raw" {
+		body := "{"
+		first := true
+		for _, k := range []string{"status", "children", "resyncAfterSeconds", "finalized", "bogus"} {
+			v, ok := fields[k]
+			if !ok {
+				continue
+			}
+			if !first {
+				body += ","
+			}
+			first = false
+			body += fmt.Sprintf("%q:%s", k, v)
+		}
+		body += "}"
+		sc.Hook.Kind, sc.Hook.RawBody = "raw", body
+	}
+	if r.Chance(1, 10) {
+		sc.Hook.Code = []int{201, 204, 301, 400, 404, 500, 503}[r.Intn(7)]
+		what += "+status-code"
+	}
+	sc.Features = append(sc.Features, "malformed-"+what, "type-"+t)
+	sc.Hook2 = nil
+	if sc.Warmup {
+		// the warm-up uses a well-formed answer
+		h := sc.Hook
+		good := hookProgram{Kind: "raw", RawBody: "{\"status\":{\"ready\":1},\"children\":[" + child("c0") + "]}"}
+		sc.Hook = good
+		sc.Hook2 = &h
+	}
+	sc.Rounds = []roundSpec{{}}
+	return sc
+}
+
+func indexOf(s, sub string) int {
+	for i := 0; i+len(sub) <= len(s); i++ {
+		if s[i:i+len(sub)] == sub {
+			return i
+		}
+	}
+	return -1
+}
+
+// valueEnd returns the index just after the JSON value starting at i
+func valueEnd(s string, i int) int {
+	depth := 0
+	inStr := false
+	for j := i; j < len(s); j++ {
+		c := s[j]
+		if inStr {
+			if c == '\\' {
+				j++
+			} else if c == '"' {
+				inStr = false
+				if depth == 0 {
+					return j + 1
+				}
+			}
+			continue
+		}
+		switch c {
+		case '"':
+			inStr = true
+		case '{', '[':
+			depth++
+		case '}', ']':
+			if depth == 0 {
+				return j
+			}
+			depth--
+			if depth == 0 {
+				return j + 1
+			}
+		case ',':
+			if depth == 0 {
+				return j
+			}
+		}
+	}
+	return len(s)
+}
+
 func generateScenarios(prop string, seed uint64, n int, adv bool) []*scenario {
 	root := vh.NewRng(seed ^ 0xc0de)
 	var out []*scenario
@@ -504,6 +655,8 @@ func generateScenarios(prop string, seed uint64, n int, adv bool) []*scenario {
 			out = append(out, g.lifecycle(i, s))
 		case prop == "C11" && i%4 != 0:
 			out = append(out, g.statusy(i, s))
+		case prop == "C13" && i%8 != 0:
+			out = append(out, g.malformed(i, s))
 		default:
 			out = append(out, g.basic("basic", i, s))
 		}
